@@ -24,6 +24,7 @@ let parse_op (tok : string) : lop =
   | 'Q', [a] -> LWork (b_ a)
   | 'X', _ -> LStopLoop
   | 'A', [d] -> LAdv (z_of_string d)
+  | 'V', _ -> LAdv (z_of_string "0")   (* uv_update_time() issued only when loop time is current: no effect *)
   | 'L', _ -> LAlive
   | 'O', _ -> LObs
   | 'B', _ -> LBackendTimeout
